@@ -3,7 +3,7 @@ from common import *  # noqa
 import lexcommon
 
 PID = "C06"
-KINDS = {"tokens", "text"}
+KINDS = {"tokens", "text", "ctl"}
 
 
 def check(tier):
@@ -12,7 +12,7 @@ def check(tier):
     q = tier == "quick"
     n = lexcommon.lex_replay(rep, pvh, ["MC_PongoLexer_text_q.cfg", "MC_PongoLexer_mixed_q.cfg"] if q else
                              ["MC_PongoLexer_text_t.cfg", "MC_PongoLexer_mixed_t.cfg", "MC_PongoLexer_code_q.cfg"], KINDS)
-    n += lexcommon.lex_replay(rep, pvh, ["MC_PongoDoc_plain_q.cfg"] if q else ["MC_PongoDoc_plain_t.cfg"], KINDS,
+    n += lexcommon.lex_replay(rep, pvh, ["MC_PongoDoc_plain_q.cfg", "MC_PongoDoc_ctl.cfg"] if q else ["MC_PongoDoc_plain_t.cfg", "MC_PongoDoc_ctl.cfg"], KINDS,
                               module="MC_PongoDoc", cmd="doc-replay")
     n += lexcommon.fixture_traces(rep, pvh, KINDS)
     rep.cov["traces_validated_against_impl"] += n
